@@ -230,18 +230,21 @@ def generic_candidates(spec):
             yield c
 
 
-def shrink(spec, still_fails, extra_candidates=None, budget=400):
-    """Return a (locally) minimal spec for which still_fails(spec) is true."""
+def shrink(spec, still_fails, extra_candidates=None, budget=400, max_s=120.0):
+    """Return a (locally) minimal spec for which still_fails(spec) is true.  Bounded by evaluations and by wall-clock time
+    (a tree on which calls hang makes every evaluation expensive; a less minimal replay is still a replay)."""
+    import time as _time
+    t_end = _time.time() + max_s
     evals = 0
     progress = True
-    while progress and evals < budget:
+    while progress and evals < budget and _time.time() < t_end:
         progress = False
         gens = [generic_candidates(spec)]
         if extra_candidates is not None:
             gens.insert(0, extra_candidates(spec))
         for g in gens:
             for cand in g:
-                if evals >= budget:
+                if evals >= budget or _time.time() > t_end:
                     break
                 evals += 1
                 try:
